@@ -147,6 +147,20 @@ def _task(task):
                         if got.shape != exp.shape or not all(g == e or dims.close(g, e, max(abs(e), max_off, abs(ov)), TOL) for g, e in zip(got.ravel(), exp.ravel())):
                             part.violation("C01:container:%s:%s:%s->%s:%s" % (world, qt, u, v, cname), {"got": got.tolist(), "floats": exp.tolist()},
                                            _snip(world, "import numpy as np\na = %s\nr = db.Convert(%r, %r, %r, a)\ne = np.vectorize(lambda x: db.Convert(%r, %r, %r, float(x)))(a)\nprint(r, e)\nassert np.allclose(r, e, rtol=1e-12, atol=0)" % ("np.array(%r)" % (V,) if arr.ndim == 1 else "np.asfortranarray(np.array(%r).reshape(-1, 2))" % (V[:n4],), qt, u, v, qt, u, v)))
+                    # tuples and lists, and arrays that hold nothing but zeros (one element, several), like the floats
+                    for cname, cont in (("tuple", tuple(V)), ("list", list(V))):
+                        part.count("evaluations")
+                        got = conv(qt, u, v, cont)
+                        if type(got) is not type(cont) or len(got) != len(cuv) or not all(g == e or dims.close(g, e, max(abs(e), max_off, abs(ov)), TOL) for g, e in zip(got, cuv)):
+                            part.violation("C01:container:%s:%s:%s->%s:%s" % (world, qt, u, v, cname), {"got": list(got), "floats": cuv},
+                                           _snip(world, "r = db.Convert(%r, %r, %r, %s(%r))\ne = [db.Convert(%r, %r, %r, x) for x in %r]\nprint(r, e)\nassert list(r) == e" % (qt, u, v, cname, V, qt, u, v, V)))
+                    z = cuv[V.index(0.0)]
+                    for cname, arr in (("ndarray [0.0]", np.array([0.0])), ("ndarray of three zeros", np.zeros(3)), ("ndarray [-0.0]", np.array([-0.0]))):
+                        part.count("evaluations")
+                        got = np.asarray(conv(qt, u, v, arr))
+                        if got.shape != arr.shape or not all(g == z or dims.close(g, z, max(abs(z), max_off, abs(ov)), TOL) for g in got):
+                            part.violation("C01:container:%s:%s:%s->%s:%s" % (world, qt, u, v, cname), {"got": got.tolist(), "float": z},
+                                           _snip(world, "import numpy as np\nr = db.Convert(%r, %r, %r, np.zeros(3))\ne = db.Convert(%r, %r, %r, 0.0)\nprint(r, e)\nassert all(x == e for x in r)" % (qt, u, v, qt, u, v)))
                     buf = np.array(V)
                     conv(qt, u, v, buf)
                     buf[:] = buf[::-1].copy()
